@@ -133,6 +133,13 @@ def frame_check(design, passname):
 
 
 def run(ctx):
+    import contracts.transform     # noqa: F401
+    from pyvc.contract import REGISTRY
+    from pyvc import run as prun
+    cs = [c for c in REGISTRY.values() if 'C11' in c.props and c.__class__.__module__ == 'contracts.transform']
+    prun.run_contracts(ctx, cs, 'contracts.transform')
+    ctx.assume('clone_wire / _make_copy contracts: constructors modelled as records of their arguments '
+               '(attribute preservation only; frame and behaviour: bounded families)')
     fam = designs.family(ctx.tier, ctx.seed)
     k = 2 if ctx.tier == 'quick' else 3
     tasks = [(d, p, k, dict(sanction=(p == 'optimize_copy'))) for d in fam for p in NOUPD]
@@ -159,8 +166,10 @@ def run(ctx):
                      'edit/simulate one block then re-fingerprint the other',
                sample=dict(design=cases[0][0], pass_=cases[0][1]))
     ctx.assume('frame conditions are checked at run time on the family (no static write-effect proof)')
-    return ctx.finish('other', './check C11', ['z3', 'spec/netsem.py', 'elab/n2smt.py'],
-                      'bounded: behavioural identity by SMT per instance; frame by executable contract')
+    return ctx.finish('other', './check C11', ['z3', 'pyvc', 'spec/netsem.py', 'elab/n2smt.py'],
+                      'P: clone_wire, MemBlock._make_copy, RomBlock._make_copy preserve class and every '
+                      'behaviour-relevant attribute; bounded: behavioural identity by SMT per instance; frame by '
+                      'executable contract')
 
 
 def _frame(case):
